@@ -226,7 +226,9 @@ package parser
 //@   decreases len(query) - s.pos
 
 //@ func parser.SplitStatements
-//@   use lex
+//@   use lex clidecl
+//@   function splitOf
+//@   ensures @function: result == splitOf(source)
 //@   ensures @count: len(result) == nsemi(scanOf(source), len(scanOf(source))) + 1
 //@   ensures @join: Str.cat(joinSemi(result, len(result) - 1), result[len(result)-1]) == source
 //@ loop 1
